@@ -332,10 +332,26 @@ def tfilter(names):
     return ",".join(keep) if keep else "-"
 
 
-def project(res, variant):
+def detect_selfcheck(exe, scratch):
+    """Does the worker test the command timeout itself at the top of its poll loop (the proposed repair of
+    F07-LOSTALRM) or only after EINTR (the pinned source)?  Decided by behaviour: target 1 is connected at second 1
+    (target 0 takes one second, fanout 1), command timeout 1, it sends data at +0 and +2 and keeps the stream open
+    until +3.  At second 3 no watchdog poll happens (polls are at even seconds); a worker that tests the timeout
+    itself reports `command timeout` at 3, the pinned source relays the data and goes back to xpoll."""
+    first = {"conn": ["ok", 0], "out": [[1, "EOF"]], "err": []}
+    probe = {"conn": ["ok", 0], "out": [[0, 4], [2, 4], [3, "EOF"]], "err": []}
+    case = mk_case([first, probe], 1, 0, 1, False, 1, strategy="first")
+    res = run_cases(exe, [case], scratch)[0]
+    if res["crash"] is not None or res["M"] is None:
+        return False, res
+    h = observe(res)[1]
+    return h["timeout_at"] == 3, res
+
+
+def project(res, variant, selfcheck=False):
     case = res["case"]
     o = case["opts"]
-    L = ["init %s %d %d %d %d" % (variant, case["fanout"], o["ct"], o["ut"], o["sopt"])]
+    L = ["init %s %d %d %d %d %d" % (variant, case["fanout"], o["ct"], o["ut"], o["sopt"], 1 if selfcheck else 0)]
     for b in case["behaviours"]:
         L.append("host %s %d %s %s" % (b["conn"][0], b["conn"][1] if len(b["conn"]) > 1 else 0,
                                         items_text(b, "out"), items_text(b, "err")))
